@@ -656,12 +656,91 @@ def run_api(shard):
     return acc
 
 
+def run_from_atom(shard):
+    """query atoms copied from molecule atoms (QueryElement.from_atom, QueryContainer.add_atom(<molecule atom>)) with every subset-of-one of the optional attributes:
+    the copy matches exactly the atoms whose independently determined attributes equal those of the source atom"""
+    from chython import QueryContainer
+    from chython.periodictable import Element, QueryElement
+    k, nsh, tier = shard
+    acc = Acc()
+    s2z = {c.__name__: c.atomic_number.fget(None) for c in Element.__subclasses__()}
+    envs = []
+    for tag, m in mol_set('quick')[::3] + [x for x in mol_set('quick') if x[0] in ('[CH3]', 'C[O]', '[13CH4]', 'C[2H]', 'CC(=O)[O-]', 'C[N+](C)(C)C', 'c1cc[nH]c1 (as parsed)', 'C1CC1C1CC1')]:
+        try:
+            a, b = environments(m, s2z)
+        except Exception:
+            continue
+        envs.append((tag, m, a))
+    flags = [(), ('neighbors',), ('hybridization',), ('heteroatoms',), ('hydrogens',), ('ring_sizes',)]
+    ci = 0
+    for stag, sm, senv in envs:
+        for n, atom in sm.atoms():
+            ci += 1
+            if ci % nsh != k:
+                continue
+            se = senv[n]
+            if se['r'] is None:
+                continue
+            for fl in flags:
+                acc.states += 1
+                try:
+                    q = QueryElement.from_atom(atom, **{f: True for f in fl})
+                    qc = QueryContainer('')
+                    qc.add_atom(atom)
+                    q2 = qc.atom(next(iter(qc)))
+                except Exception as e:
+                    acc.fail('from_atom raised %s' % type(e).__name__, mol=stag, atom=n, flags=list(fl))
+                    continue
+                for tag, m, aenv in (envs[::4] + [(stag, sm, senv)]):
+                    if any(e['r'] is None for e in aenv.values()):
+                        continue
+                    acc.transitions += 1
+
+                    def same(e):
+                        if (e['z'], e['charge'], bool(e['rad'])) != (se['z'], se['charge'], bool(se['rad'])):
+                            return False
+                        if atom.isotope and e['iso'] != atom.isotope:
+                            return False
+                        if 'neighbors' in fl and e['D'] != se['D']:
+                            return False
+                        if 'hybridization' in fl and e['z_'] != se['z_']:
+                            return False
+                        if 'heteroatoms' in fl and e['x'] != se['x']:
+                            return False
+                        if 'hydrogens' in fl and se['h'] is not None and e['h'] != se['h']:
+                            return False
+                        if 'ring_sizes' in fl and se['r'] and not (e['r'] & se['r']):
+                            return False
+                        return True
+                    exp = {x for x, e in aenv.items() if same(e)}
+                    try:
+                        got = {x for x, a in m.atoms() if q == a}
+                    except Exception as e:
+                        acc.fail('comparing a query atom copied by from_atom raised %s :: %s' % (type(e).__name__, '+'.join(fl) or 'plain'), mol=stag, atom=n, target=tag)
+                        break
+                    if got != exp:
+                        d = sorted(got ^ exp)[0]
+                        acc.fail('query atom copied from a molecule atom (from_atom) matches other atoms than the attribute oracle says :: %s' % ('+'.join(fl) or 'plain'), mol=stag, atom=n, target=tag, other=d,
+                                 chython=d in got)
+                        break
+                    if not fl:
+                        got2 = {x for x, a in m.atoms() if q2 == a}
+                        if got2 != exp:
+                            acc.fail('QueryContainer.add_atom(<molecule atom>) gives a query atom that differs from the attribute oracle', mol=stag, atom=n, target=tag)
+                            break
+                acc.outcomes[fl] += 1
+    acc.sample({'source molecules': len(envs), 'flags': [list(f) for f in flags]})
+    return acc
+
+
 def plan(tier, seed):
     return [Stage('atom primitives and pairs', run_atoms, [(k, 64, tier) for k in range(64)], '15 element specs x (27 primitives + all pairs) (+charges, isotopes) x every atom of the molecule scope'),
             Stage('bond primitives', run_bonds, [(k, 21, tier) for k in range(21)], '%d bond primitives (orders, lists, negations, ring/non-ring) x every bond of the molecule scope' % len(BONDS)),
             Stage('unsupported / malformed SMARTS', run_syntax, [0], 'unsupported constructs and all token strings of length <=3: ValueError family or a query'),
             Stage('query atoms built through the API', run_api, [(k, 16, tier) for k in range(16)],
                   '6 kinds of query atom x 5 attributes x every value (incl. 0) as int / tuple / list, by constructor keyword and by assignment, and value pairs x every atom of the molecule scope'),
+            Stage('query atoms copied from molecule atoms', run_from_atom, [(k, 16, tier) for k in range(16)],
+                  'QueryElement.from_atom / QueryContainer.add_atom(atom) for every atom of the sampled molecule scope (incl. radicals, isotopes, charges) x each optional attribute x target molecules'),
             Stage('stereo marks: templates', run_stereo_templates, [(p, tier) for p in ('tet4', 'tet3h', 'decor', 'allene')],
                   'tetrahedral centre texts: all 24/6 neighbour orders x both marks x middle/first/fragment forms; cis/trans texts x 6 bond primitives; allene texts; x labelled/unlabelled targets'),
             Stage('stereo marks: spellings', run_stereo_generic, [(b, tier) for b in (STEREO_BASES_QUICK if tier == 'quick' else STEREO_BASES)],
@@ -678,6 +757,9 @@ def replay(rec):
         except Exception:
             return [{'key': key}]
         return [{'key': key}] if exp != got else []
+    if 'from_atom' in key or 'add_atom(<molecule atom>)' in key:
+        accs = [run_from_atom((k, 16, 'quick')) for k in range(16)]
+        return [f for a in accs for f in a.fails if f['key'] == key]
     if 'API' in key:
         accs = [run_api((k, 16, 'quick')) for k in range(16)]
         return [f for a in accs for f in a.fails if f['key'] == key]
